@@ -730,6 +730,200 @@ func c18tScenarios(tier mc.Tier) []mc.Scenario {
 	return out
 }
 
+// ---------------------------------------------------------------------------------------------------------------------------------
+// C11T: OCSP first, CRL exactly when OCSP is inconclusive - with "inconclusive" decided by the clock.
+
+type c11tWorld struct {
+	root, leaf *pki.Cert
+	crl        []byte
+}
+
+var c11tW *c11tWorld
+
+const c11tOCSP = "http://r0.ocsp.test/c11t"
+const c11tCRL = "http://crl.test/c11t/base"
+
+// next-update instants: the OCSP answer's at T0, the CRL's half an hour later
+func c11tOCSPNU() time.Time { return clkT0 }
+func c11tCRLNU() time.Time  { return clkT0.Add(30 * time.Minute) }
+
+func c11tWorldGet() *c11tWorld {
+	if c11tW != nil {
+		return c11tW
+	}
+	w := &c11tWorld{}
+	w.root = pki.Issue(pki.RootTmpl("c11t issuer"), pki.K("rsa2048-a"), nil, nil)
+	lt := pki.LeafTmpl("c11t leaf")
+	lt.OCSP = []string{c11tOCSP}
+	lt.CRL = []string{c11tCRL}
+	lt.Serial = big.NewInt(0x7c01)
+	w.leaf = pki.Issue(lt, pki.K("p256-e"), w.root, nil)
+	w.crl = pki.ForgeCRL(pki.CRLSpec{Issuer: w.root, Number: 40, ThisUpdate: clkT0.Add(-48 * time.Hour), NextUpdate: c11tCRLNU()})
+	c11tW = w
+	return w
+}
+
+func c11tBody(c *mc.Ctx, entry string, status int) {
+	w := c11tWorldGet()
+	clk := &clkClock{}
+	defer clk.install()()
+	clk.now = clkT0.Add(-2 * time.Hour)
+	oi := c.ChooseFree("clock-at-ocsp-delivery", len(clkOffsets))
+	ci := c.ChooseFree("clock-at-crl-delivery", len(clkOffsets))
+	zone := c.ChooseFree("zone", 3)
+	var ocspAt, crlAt time.Time
+	ocspAsked, crlAsked := 0, 0
+	move := func(t time.Time) time.Time {
+		if t.After(clk.now) {
+			clk.now = zoned(t, zone)
+		}
+		return clk.now
+	}
+	tr := &netsim.Transport{}
+	tr.Handler = func(r *netsim.Request, raw *http.Request) netsim.Answer {
+		switch {
+		case raw.URL.Host == "r0.ocsp.test":
+			ocspAsked++
+			ocspAt = move(c11tOCSPNU().Add(clkOffsets[oi].d))
+			single := pki.OCSPSingle{Serial: w.leaf.X.SerialNumber, Status: status, ThisUpdate: c11tOCSPNU().Add(-24 * time.Hour), NextUpdate: c11tOCSPNU()}
+			if status == pki.OCSPRevoked {
+				single.RevokedAt, single.Reason = c11tOCSPNU().Add(-30*time.Hour), 1
+			}
+			return netsim.Answer{Status: 200, Body: pki.ForgeOCSP(pki.OCSPSpec{Issuer: w.root, Signer: w.root.Key, Responder: w.root, Singles: []pki.OCSPSingle{single}})}
+		case r.URL == c11tCRL:
+			crlAsked++
+			crlAt = move(c11tCRLNU().Add(clkOffsets[ci].d))
+			return netsim.Answer{Status: 200, Body: w.crl}
+		}
+		return netsim.Answer{Status: 404}
+	}
+	chain := []*x509.Certificate{w.leaf.X, w.root.X}
+	var res []*result.CertRevocationResult
+	var err error
+	var pan any
+	func() {
+		defer func() {
+			if r := recover(); r != nil {
+				pan = r
+			}
+		}()
+		if entry == "checkstatus" {
+			res, err = revocsp.CheckStatus(revocsp.Options{CertChain: chain, HTTPClient: tr.Client()})
+			return
+		}
+		hf, e := corecrl.NewHTTPFetcher(tr.Client())
+		if e != nil {
+			panic(mc.HarnessError{Msg: e.Error()})
+		}
+		v, e := revocation.NewWithOptions(revocation.Options{OCSPHTTPClient: tr.Client(), CRLFetcher: hf, CertChainPurpose: purpose.CodeSigning})
+		if e != nil {
+			panic(mc.HarnessError{Msg: e.Error()})
+		}
+		res, err = v.ValidateContext(context.Background(), revocation.ValidateContextOptions{CertChain: chain})
+	}()
+	if pan != nil {
+		c.Outcome("verdict:panic")
+		c.State("panic")
+		return
+	}
+	if err != nil || len(res) != 2 || res[0] == nil {
+		c.Fail("C11 clocked: valid chain not processed", "err=%v results=%d", err, len(res))
+		return
+	}
+	got := res[0]
+	ocspPassed := ocspAsked > 0 && ocspAt.After(c11tOCSPNU())
+	ocspAtBoundary := ocspAsked > 0 && ocspAt.Equal(c11tOCSPNU())
+	c.Statef("ocsp=%s crl=%s status=%d", clkOffsets[oi].name, clkOffsets[ci].name, status)
+	c.Outcome(fmt.Sprintf("verdict:%s/%s", got.Result, got.RevocationMethod))
+	c.Tracef("entry %s status %d: OCSP delivered at N%+dns (asked %d), CRL delivered at N%+dns (asked %d) -> %s by %s", entry, status, clkOffsets[oi].d.Nanoseconds(), ocspAsked, clkOffsets[ci].d.Nanoseconds(), crlAsked, got.Result, got.RevocationMethod)
+	sig := func(what string) string { return "C11 clocked " + entry + " " + what }
+	if ocspAsked != 1 {
+		c.Fail(sig("responder not asked exactly once"), "asked %d times", ocspAsked)
+		return
+	}
+	if entry == "checkstatus" && crlAsked > 0 {
+		c.Fail(sig("standalone OCSP consulted a CRL"), "")
+		return
+	}
+	switch {
+	case !ocspPassed && !ocspAtBoundary:
+		// a current answer: Good and Revoked are final, no CRL is fetched; Unknown-status falls back
+		if status != pki.OCSPUnknown {
+			want := result.ResultOK
+			if status == pki.OCSPRevoked {
+				want = result.ResultRevoked
+			}
+			if crlAsked > 0 {
+				c.Fail(sig("CRL fetched although the OCSP answer was final"), "OCSP answer delivered %s before its next-update, status %d", (-clkOffsets[oi].d).String(), status)
+				return
+			}
+			if got.Result != want {
+				c.Fail(sig("current OCSP answer not final"), "status %d delivered before its next-update: verdict %s, want %s", status, got.Result, want)
+				return
+			}
+			return
+		}
+		fallthrough
+	case ocspPassed:
+		// no usable OCSP answer (next-update passed when it was delivered, or status Unknown)
+		if entry == "checkstatus" {
+			if got.Result != result.ResultUnknown {
+				c.Fail(sig("stale or unknown OCSP answer not Unknown"), "verdict %s", got.Result)
+			}
+			return
+		}
+		if crlAsked != 1 {
+			c.Fail(sig("no CRL fallback after an inconclusive OCSP answer"), "OCSP answer delivered at N%+dns (status %d): CRL asked %d times, verdict %s", clkOffsets[oi].d.Nanoseconds(), status, crlAsked, got.Result)
+			return
+		}
+		crlPassed := crlAt.After(c11tCRLNU())
+		switch {
+		case crlPassed && got.Result == result.ResultOK:
+			c.Fail(sig("OK from a CRL whose next-update has passed"), "CRL delivered %v after its next-update", crlAt.Sub(c11tCRLNU()))
+		case !crlPassed && !crlAt.Equal(c11tCRLNU()) && got.Result != result.ResultOK:
+			c.Fail(sig("CRL outcome not taken over after the fallback"), "clean current CRL, verdict %s", got.Result)
+		case got.Result == result.ResultRevoked:
+			c.Fail(sig("Revoked without evidence"), "stale OCSP answer and a clean CRL")
+		}
+		if got.RevocationMethod != result.RevocationMethodOCSPFallbackCRL {
+			c.Fail(sig("fallback not labelled as OCSP-with-CRL-fallback"), "method %s", got.RevocationMethod)
+		}
+	}
+}
+
+func c11tScenarios(tier mc.Tier) []mc.Scenario {
+	var out []mc.Scenario
+	for _, entry := range []string{"validate", "checkstatus"} {
+		for _, st := range c04tStatuses {
+			entry, st := entry, st
+			out = append(out, mc.Scenario{Name: fmt.Sprintf("C11T-%s-%s", entry, st.name), Bound: -1, Body: func(c *mc.Ctx) { c11tBody(c, entry, st.status) },
+				Params: map[string]string{"entry": entry, "ocspStatus": st.name}})
+		}
+	}
+	return out
+}
+
+func init() {
+	register(&mc.Check{
+		ID: "C11T", Title: "C11 with the clock seam", DesignRef: "DESIGN.md §4 C11 / §9.6",
+		Rule:      "clocked sub-run of C11: one responder and one distribution point; OCSP status {good, revoked, unknown} x clock at the delivery of the OCSP answer x clock at the delivery of the CRL, each over {N-1h, N-1s, N-1ns, N, N+1ns, N+1s, N+1h} of the artefact's own next-update N, x zone, both entry points: a current Good / Revoked answer is final and no CRL is fetched; an answer whose next-update has passed is inconclusive: the CRL is fetched, its outcome is the result, labelled as fallback",
+		Scenarios: c11tScenarios,
+		Alphabet: func(mc.Tier) map[string]int {
+			return map[string]int{"statuses": 3, "clock_offsets": len(clkOffsets), "zones": 3}
+		},
+		Guards: func(s *mc.Stats, t mc.Tier) []string {
+			var w []string
+			for _, o := range []string{"verdict:OK/OCSP", "verdict:OK/OCSPFallbackCRL", "verdict:Unknown/OCSPFallbackCRL", "verdict:Revoked/OCSP"} {
+				if s.Outcomes[o] == 0 {
+					w = append(w, "outcome never observed: "+o)
+				}
+			}
+			return w
+		},
+		BudgetS: [2]int{60, 300},
+	})
+}
+
 func init() {
 	offs := len(clkOffsets)
 	register(&mc.Check{
